@@ -459,3 +459,135 @@ Example c06_source_nonvacuous :
   SrcRun.src_lookup_check ex_bufs ex_sh [[0; 1]; [1; 2]; [1; 0]] 2 (Vec [1; 3])
     (Some (AtIdx [[Fin (-12); Fin (-4); NInf]; [Fin (-12); Fin (-2); NInf]])) = true.
 Proof. split; [vm_compute; reflexivity|]. split; vm_compute; reflexivity. Qed.
+
+(* ---------- second source tie: the vector-index path, calc_full_log_probs_chunked, calc_full_log_probs ---------- *)
+
+(* PV.Gen.C06BSrc.chunked_body / full_body are the MiniPy terms harness/py2coq regenerates from
+   /repo/src/pydrobert/torch/_lm.py on every run (WHOLE bodies of `LookupLanguageModel.calc_full_log_probs_chunked`
+   and `calc_full_log_probs`); SrcRunB.ext06B = the first tie's SrcRun.ext06_ops + the calls only the all-positions
+   code makes (PV.MiniTorch.OpsC06B: contiguous / storage_offset / as_strided on the row-major content, torch.empty
+   of no element, torch.tensor of an int, iteration over a 1-D tensor, a 0-dim tensor as a slice bound; Python's
+   three-argument range) + `self.calc_idx_log_probs`, which INTERPRETS the first tie's translated method.
+   Hypotheses are those of the first tie: the in-range validator TieSafe.safe_okb on the buffers (evaluated on the
+   implementation's actual buffers on every run), V >= 1, a rectangular history of vocabulary ids / sos.
+   (Several statements are bundled per theorem: each Print Assumptions re-traverses the whole tie, ~5 s.) *)
+From PV Require MiniTorch.OpsC06B Gen.C06BSrc C06.SrcRunB C06.TieBVec C06.TieBRun C06.TieB.
+
+(* (5) VECTOR INDEX (idx a tensor with one index per batch element, B >= 2; the `masked_select(mask).view(B, N-1).T`
+   window selection): for all buffers the validator accepts, all histories, all index vectors l with every entry
+   <= T: (a) interpreting `_lookup_calc_idx_log_probs` returns the (B, V) tensor of exactly the rows
+   Model.lookup_batch computes (left-padding with sos when the smallest index is < N - 1, the N = 1 bypass
+   included); (b) so does the method calc_idx_log_probs, `prev` untouched; (c) the executable the harness runs
+   (SrcRun.src_lookup_batch) refines the model.  TieB.vector_is_model_stmt is the conjunction of the three. *)
+Theorem c06_source_vector_lookup_is_model : forall b sh hist B l,
+  TieSafe.safe_okb b sh = true -> 1 <= vocab sh -> hist_ok sh hist B ->
+  length l = B -> (2 <= B)%nat -> Forall (fun i => (i <= length hist)%nat) l ->
+  (lookup_batch b sh hist B (Vec (map Z.of_nat l)) = Some (batch_rows b sh hist B l) /\
+   exists st, Interp.run SrcRun.ext06_ops C06Src.lookup_body (SrcRun.lookup_vars b sh hist B (Vec (map Z.of_nat l)))
+              = Interp.Ok (SrcRun.enc6 (SrcRun.rows_tensor B (Z.to_nat (vocab sh)) (batch_rows b sh hist B l))) st) /\
+  (exists st, Interp.run SrcRun.ext06 C06Src.calc_idx_body (SrcRun.method_vars b sh hist B (Vec (map Z.of_nat l)))
+              = Interp.Ok (Syntax.VTuple
+                             [SrcRun.enc6 (SrcRun.rows_tensor B (Z.to_nat (vocab sh)) (batch_rows b sh hist B l));
+                              Syntax.VDict []]) st) /\
+  SrcRun.src_lookup_batch b sh hist B (Vec (map Z.of_nat l)) = Some (lookup_batch b sh hist B (Vec (map Z.of_nat l))).
+Proof. exact TieB.source_vector_is_model. Qed.
+Print Assumptions c06_source_vector_lookup_is_model.
+
+(* COMPOSED with c06_per_element_index_is_katz, purely about the interpreted source: with a different index per
+   batch element the interpreted method returns the Katz back-off values of the table, element bi at its own
+   position l[bi], on the sos-padded history of that element *)
+Theorem c06_source_vector_lookup_is_katz : forall b sh t hist B l,
+  trie_okb b sh (tmap sh t) = true -> tab_okb (vocab sh) (sos sh) t = true ->
+  TieSafe.safe_okb b sh = true -> 1 <= vocab sh -> hist_ok sh hist B ->
+  length l = B -> (2 <= B)%nat -> Forall (fun i => (i <= length hist)%nat) l ->
+  exists st, Interp.run SrcRun.ext06 C06Src.calc_idx_body (SrcRun.method_vars b sh hist B (Vec (map Z.of_nat l)))
+             = Interp.Ok (Syntax.VTuple
+                            [SrcRun.enc6 (SrcRun.rows_tensor B (Z.to_nat (vocab sh))
+                                            (spec_at t (order sh) (vocab sh) (sos sh) hist B l));
+                             Syntax.VDict []]) st.
+Proof. exact TieB.source_vec_is_katz. Qed.
+Print Assumptions c06_source_vector_lookup_is_katz.
+
+(* (6) ALL POSITIONS: for all buffers the validator accepts, all histories (T = 0 included): (a) for every chunk
+   size >= 1, interpreting the whole body of `calc_full_log_probs_chunked` - the preamble, one interpreted
+   `calc_idx_log_probs(hist[:idx_], prev, idx_)` per position below min(T, N-1), one per chunk on the `as_strided`
+   windows, `view(T_rest, B, V)`, `torch.cat`, the assertion - returns the (T+1, B, V) tensor of exactly the
+   matrices Model.chunked computes (= all_rows: per position the rows of the scalar-index lookup); (b)
+   `calc_full_log_probs` (what __call__ runs without an index; chunk size 1) returns the same tensor = Model.forward *)
+Theorem c06_source_chunked_is_model : forall b sh hist B,
+  TieSafe.safe_okb b sh = true -> 1 <= vocab sh -> hist_ok sh hist B ->
+  let mats := map (all_rows b sh hist B) (seq 0 (S (length hist))) in
+  let res := SrcRun.enc6 (SrcRunB.mats_tensor (length hist + 1) B (Z.to_nat (vocab sh)) mats) in
+  (forall chunk, (1 <= chunk)%nat ->
+     chunked b sh hist B chunk = Some mats /\
+     exists st, Interp.run SrcRunB.ext06B C06BSrc.chunked_body (SrcRunB.chunked_vars b sh hist B (Z.of_nat chunk))
+                = Interp.Ok res st) /\
+  (forward b sh hist B None = Some (Full mats) /\
+   exists st, Interp.run SrcRunB.ext06B_full C06BSrc.full_body (SrcRunB.full_vars b sh hist B) = Interp.Ok res st).
+Proof. exact TieB.source_chunked_and_full_is_model. Qed.
+Print Assumptions c06_source_chunked_is_model.
+
+(* chunk-size independence, purely about the interpreted source: any two chunk sizes >= 1 return the same value;
+   a chunk size below 1 (any integer, ANY buffers, any history) raises RuntimeError, as Model.chunked's None *)
+Theorem c06_source_chunk_size_independent : forall b sh hist B,
+  (TieSafe.safe_okb b sh = true -> 1 <= vocab sh -> hist_ok sh hist B ->
+   forall c1 c2, (1 <= c1)%nat -> (1 <= c2)%nat ->
+   exists v st1 st2,
+     Interp.run SrcRunB.ext06B C06BSrc.chunked_body (SrcRunB.chunked_vars b sh hist B (Z.of_nat c1)) = Interp.Ok v st1 /\
+     Interp.run SrcRunB.ext06B C06BSrc.chunked_body (SrcRunB.chunked_vars b sh hist B (Z.of_nat c2)) = Interp.Ok v st2) /\
+  (forall z, z < 1 ->
+   exists st, Interp.run SrcRunB.ext06B C06BSrc.chunked_body (SrcRunB.chunked_vars b sh hist B z)
+              = Interp.Exc TieB.runtime_error st).      (* = "RuntimeError" *)
+Proof. exact TieB.source_chunk_size_independent_and_raises. Qed.
+Print Assumptions c06_source_chunk_size_independent.
+
+(* "the same numbers come out whether all positions are computed at once, in chunks of any size, or one index at
+   a time", about the interpreted sources: for every position t <= T, slice t of the tensor the interpreted chunked
+   method returns IS the tensor the interpreted `calc_idx_log_probs` returns for the scalar index t *)
+Theorem c06_source_chunked_rows_are_lookups : forall b sh hist B,
+  TieSafe.safe_okb b sh = true -> 1 <= vocab sh -> hist_ok sh hist B -> forall t, (t <= length hist)%nat ->
+  OpsC06.select0 (SrcRunB.mats_tensor (length hist + 1) B (Z.to_nat (vocab sh))
+                    (map (all_rows b sh hist B) (seq 0 (S (length hist))))) (Z.of_nat t)
+  = Some (SrcRun.rows_tensor B (Z.to_nat (vocab sh)) (batch_rows b sh hist B (repeat t B))) /\
+  exists st, Interp.run SrcRun.ext06 C06Src.calc_idx_body (SrcRun.method_vars b sh hist B (Scalar (Z.of_nat t)))
+             = Interp.Ok (Syntax.VTuple
+                            [SrcRun.enc6 (SrcRun.rows_tensor B (Z.to_nat (vocab sh)) (batch_rows b sh hist B (repeat t B)));
+                             Syntax.VDict []]) st.
+Proof. exact TieB.source_chunked_rows_are_lookups. Qed.
+Print Assumptions c06_source_chunked_rows_are_lookups.
+
+(* (7) COMPOSED with c06_full_is_katz_any_chunk / c06_call_full_is_katz, purely about the interpreted source: on
+   buffers that pass both validators, the chunked method (every chunk size >= 1) and calc_full_log_probs return
+   the tensor of the Katz back-off values of the table at EVERY position of the sos-padded histories *)
+Theorem c06_source_chunked_is_katz : forall b sh t hist B,
+  trie_okb b sh (tmap sh t) = true -> tab_okb (vocab sh) (sos sh) t = true ->
+  TieSafe.safe_okb b sh = true -> 1 <= vocab sh -> hist_ok sh hist B ->
+  let res := SrcRun.enc6 (SrcRunB.mats_tensor (length hist + 1) B (Z.to_nat (vocab sh))
+                            (spec_full t (order sh) (vocab sh) (sos sh) hist B)) in
+  (forall chunk, (1 <= chunk)%nat ->
+     exists st, Interp.run SrcRunB.ext06B C06BSrc.chunked_body (SrcRunB.chunked_vars b sh hist B (Z.of_nat chunk))
+                = Interp.Ok res st) /\
+  (exists st, Interp.run SrcRunB.ext06B_full C06BSrc.full_body (SrcRunB.full_vars b sh hist B) = Interp.Ok res st).
+Proof. exact TieB.source_chunked_and_full_is_katz. Qed.
+Print Assumptions c06_source_chunked_is_katz.
+
+(* the executables the harness runs (interpret, decode the returned tensor, compare) ARE the model's checks, for
+   EVERY chunk size (0 included) and for the all-positions query *)
+Theorem c06_source_chunked_check_is_check : forall b sh hist B,
+  TieSafe.safe_okb b sh = true -> 1 <= vocab sh -> hist_ok sh hist B ->
+  (forall chunk impl, SrcRunB.src_chunked_check b sh hist B chunk impl = omats_eqb (chunked b sh hist B chunk) impl) /\
+  (forall impl, SrcRunB.src_full_check b sh hist B impl = out_eqb (forward b sh hist B None) impl).
+Proof. exact TieB.source_checks_are_checks. Qed.
+Print Assumptions c06_source_chunked_check_is_check.
+
+(* on the example buffers of c06_nonvacuous the interpreted chunked method (chunk sizes 2 and 7), its RuntimeError
+   for chunk size 0, the empty history and calc_full_log_probs answer as the model does *)
+Example c06_source_B_nonvacuous :
+  let h := [[0; 1]; [1; 2]; [1; 0]] in
+  SrcRunB.src_chunked_check ex_bufs ex_sh h 2 2 (chunked ex_bufs ex_sh h 2 2) = true /\
+  SrcRunB.src_chunked_check ex_bufs ex_sh h 2 7 (chunked ex_bufs ex_sh h 2 1) = true /\
+  SrcRunB.src_chunked_check ex_bufs ex_sh h 2 0 None = true /\
+  SrcRunB.src_chunked_check ex_bufs ex_sh [] 2 3 (chunked ex_bufs ex_sh [] 2 3) = true /\
+  SrcRunB.src_full_check ex_bufs ex_sh h 2 (forward ex_bufs ex_sh h 2 None) = true /\
+  option_map (@length _) (chunked ex_bufs ex_sh h 2 2) = Some 4%nat.
+Proof. cbv zeta. repeat split; vm_compute; reflexivity. Qed.
